@@ -1,0 +1,41 @@
+package meta
+
+import (
+	"sync"
+
+	"github.com/coregx/coregex/nfa"
+)
+
+// pooledPikeVM gives every search its own PikeVM over one NFA.
+//
+// A PikeVM holds mutable thread queues and a visited set, so a single instance
+// stored in a searcher must not be run by two goroutines at once - and the
+// searchers are shared by every goroutine that uses the Regex. The NFA
+// fallbacks of the reverse searchers therefore take an instance from a
+// sync.Pool for the duration of one search. Instances are created on demand:
+// a searcher whose DFA never gives up allocates none.
+type pooledPikeVM struct {
+	pool sync.Pool
+}
+
+func newPooledPikeVM(n *nfa.NFA) *pooledPikeVM {
+	p := &pooledPikeVM{}
+	p.pool.New = func() any { return nfa.NewPikeVM(n) }
+	return p
+}
+
+// Search is PikeVM.Search on an instance no other search is using.
+func (p *pooledPikeVM) Search(haystack []byte) (int, int, bool) {
+	vm := p.pool.Get().(*nfa.PikeVM)
+	start, end, matched := vm.Search(haystack)
+	p.pool.Put(vm)
+	return start, end, matched
+}
+
+// SearchAt is PikeVM.SearchAt on an instance no other search is using.
+func (p *pooledPikeVM) SearchAt(haystack []byte, at int) (int, int, bool) {
+	vm := p.pool.Get().(*nfa.PikeVM)
+	start, end, matched := vm.SearchAt(haystack, at)
+	p.pool.Put(vm)
+	return start, end, matched
+}
